@@ -29,7 +29,9 @@ class CornerInst(Inst):
             key = self.key if which == "secret" else self.shared
             ks = refs.xsalsa20_stream(key, self.nonce, 32 + 80)
             r = int.from_bytes(ks[:16], "little") & refs.CLAMP
-            prefix = rbytes(rng, 16 * rng.randrange(0, 4))
+            if r == 0:
+                continue
+            prefix = refs.poly_corner_stream(rng, r, rng.randrange(0, 4)) if rng.random() < 0.5 else rbytes(rng, 16 * rng.randrange(0, 4))
             T = rng.choice(refs.POLY_TARGETS)
             blk = refs.poly_solve_last_block(r, prefix, T)
             if blk is None:
@@ -169,4 +171,11 @@ def tamper_family(rng, I, form, full=True):
     for e in (1, 15, 16, 17, 64):
         emit("extend", ct=ct + rbytes(rng, e))
         emit("extend0", ct=ct + b"\x00" * e)
+    # an extended ciphertext opened into a buffer sized for the ORIGINAL plaintext (a receiver expecting a fixed-size message):
+    # the code may refuse by Err or by a slice-bounds panic (caller-contract breach), but it must never return a message
+    if "inplace" not in f and "obj" not in f:
+        for e in (1, 16, 33):
+            small = buf(len(ct) - over)
+            out.append(("extend-shortbuf", open_line(form, I, ct=ct + rbytes(rng, e), mbuf=small), small))
+            out.append(("extend-shortbuf", open_line(form, I, ct=ct + b"\x00" * e, mbuf=small), small))
     return out
